@@ -121,6 +121,8 @@ def run(ctx):
     # ---- driver constructors apply the shortcuts (and only Logix/SLC do) ------------------------------------
     if ctx.mine(1):
         def cfg(driver):
+            if not isinstance(getattr(driver, "_cfg", None), dict) or "cip_path" not in driver._cfg:
+                return None   # the driver keeps its route elsewhere: this white-box part cannot observe it
             try:
                 return ("ok", driver._cfg["ip address"], driver._cfg["port"], bytes(p.PADDED_EPATH.encode(driver._cfg["cip_path"], length=True)))
             except Exception as e:  # noqa
@@ -146,7 +148,9 @@ def run(ctx):
                 if ref[0] == "ok":
                     want = ("ok", ref[1], ref[2] or 44818, refpath.route_bytes(ref[3]))
                     got = cfg(d) if not isinstance(d, Exception) else ("exc", d)
-                    if got != want:
+                    if got is None:
+                        res.dont_care("driver-route-not-observable")
+                    elif got != want:
                         res.violation(f"ctor-route:{cls.__name__}", f"{cls.__name__}({bare!r}) -> {got!r:.200}, expected {want!r:.200}", {"path": bare})
                 elif ref[0] == "reject":
                     if not isinstance(d, RequestError):
@@ -161,7 +165,7 @@ def run(ctx):
             # a driver whose route was shortened in place (Micro800 initialisation pops the backplane hop) must not
             # change what later constructions / parses return
             d1 = construct(p.LogixDriver, host)
-            if not isinstance(d1, Exception) and d1._cfg["cip_path"]:
+            if not isinstance(d1, Exception) and cfg(d1) is not None and d1._cfg["cip_path"]:
                 d1._cfg["cip_path"].pop(-1)
                 for cls, auto in ((p.LogixDriver, True), (p.SLCDriver, True)):
                     d2 = construct(cls, host)
